@@ -48,6 +48,14 @@ PROPOSED_FINDINGS = [
   "matcher": "a BER decode step that does not return within 2 s, innermost library frames ber_fetch_tag<CHOICE_decode_ber or CHOICE_decode_ber"},
 ]
 
+# crash signatures of findings that belong to other properties but are met by histories (garbage that decodes to RC_OK is
+# printed / checked / re-encoded): (regex on the sanitizer report, finding id in KNOWN_FINDINGS.json)
+FOREIGN_PATTERNS = [
+    (r"left shift of \d+ by 24 places cannot be represented in type 'int'", "F50"),    # C04: UniversalString (buf[0] << 24), skeleton and generated checker
+    (r"OCTET_STRING\.c:\d+:\d+: runtime error: shift exponent \d+ is too large", "F52"),  # C04: BIT STRING unused-bits octet > 7
+    (r"stack-overflow .*\bin \w+_constraint\b", "F48"),                                 # C08: generated X_constraint tail-calls itself
+]
+
 # ---------------------------------------------------------------- fixed lifecycle module
 LC_TEXT = """LC DEFINITIONS ::= BEGIN
 Os ::= OCTET STRING
@@ -320,10 +328,9 @@ def run(ctx):
         "K leg: the ownership tree is read from the C structure by harness/ops_gen_c14.c (descriptor walk, private copy of OCTET_STRING.c's struct _stack layout)"]
     ctx.lean()
     replay_witnesses(ctx)
-    # sanitizer findings owned by C04 / C07 (decoding arbitrary bytes, encoder contract): a crash whose report matches
-    # the `expect` pattern of such an entry is reported under that entry, not as a C14 violation
-    foreign = [f for f in core.load_findings() if f.get("property") in ("C04", "C07") and f.get("status") == "known"
-               and isinstance(f.get("witness"), dict) and re.search(r"\.c:\d+", f["witness"].get("expect", ""))]
+    # sanitizer findings owned by other properties: a crash whose report matches the narrow pattern of such an entry
+    # (and only while the entry is listed in KNOWN_FINDINGS.json) is reported under that entry, not as a C14 violation
+    foreign = [f for f in core.load_findings() if f.get("status") == "known" and f["id"] in {fid for _, fid in FOREIGN_PATTERNS}]
     rng = ctx.rng
     quick = ctx.quick
     fails = collections.Counter(); samples = {}; known_hits = collections.Counter()
@@ -414,10 +421,8 @@ def run(ctx):
             if why == "crash":
                 if crash_sig(o).startswith("constr_SET_OF.c:member access within null pointer") and h.get("so") \
                    and re.search(r"enc:(der|uper)", line): return "F7"
-                for f in foreign:          # memory-safety findings of C04/C07 met while decoding garbage / printing what it left
-                    try:
-                        if re.search(f["witness"]["expect"], o): return f["id"]
-                    except re.error: pass
+                for pat, fid in FOREIGN_PATTERNS:      # findings owned by C04 / C08 met on the way (see FOREIGN_PATTERNS)
+                    if re.search(pat, o) and any(f["id"] == fid for f in foreign): return fid
                 return None
             if why.startswith("hang:"):
                 if re.match(r"hang:(ber_fetch_tag<)?CHOICE_decode_ber<", why) and ":ber:" in line: return "F141"
